@@ -2,7 +2,7 @@
 from . import sesscheck as SC
 
 MODULE = "Props.C17"
-PROFILE = {"publish": 25, "ack": 12, "inbound": 1, "connect": 5, "fault": 3, "restart": 4, "call": 6, "response": 4,
+PROFILE = {"wrap": 0.15, "publish": 25, "ack": 12, "inbound": 1, "connect": 5, "fault": 3, "restart": 4, "call": 14, "response": 5, "txwrap": 0.3,
            "hostile": 0.5, "close": 0.3, "bigbuf": 0.05}
 
 
@@ -17,6 +17,7 @@ def run(ctx):
         m1, m2 = (int(init[0].split()[3]), int(init[0].split()[4])) if init else (0, 0)
         out = SC.mon_sanity(tr) + SC.mon_limits(tr, m1, m2)
         out += [h for h in SC.mon_outbound(tr) if h[0] in ("outbound:id-reuse",)]
+        out += SC.mon_unordered_ids(tr)
         return out
     v, stats, hist, samples, nd = SC.run_property(ctx, MODULE, PROFILE, 250, 4000, [mon], keep, length=(10, 40))
     return SC.finish(ctx, v, stats, hist, samples, nd,
